@@ -175,6 +175,15 @@ func (da *DistributedAllocator) Start(ctx context.Context) error {
 	return nil
 }
 
+// holdsLocked reports whether the local allocator holds an allocation for subscriberID.
+// Caller must hold da.mu.
+func (da *DistributedAllocator) holdsLocked(subscriberID string) bool {
+	if da.mode == PoolModeLease {
+		return da.epochAllocator.Lookup(subscriberID) != nil
+	}
+	return da.allocator.Lookup(subscriberID) != nil
+}
+
 // Allocate assigns a prefix to a subscriber.
 func (da *DistributedAllocator) Allocate(ctx context.Context, subscriberID string) (*net.IPNet, error) {
 	da.mu.Lock()
@@ -182,6 +191,7 @@ func (da *DistributedAllocator) Allocate(ctx context.Context, subscriberID strin
 
 	var prefix *net.IPNet
 	var epoch uint64
+	held := da.holdsLocked(subscriberID)
 
 	// Use appropriate allocator based on mode
 	if da.mode == PoolModeLease {
@@ -213,7 +223,10 @@ func (da *DistributedAllocator) Allocate(ctx context.Context, subscriberID strin
 	}
 
 	if err := da.saveAllocation(ctx, alloc); err != nil {
-		// Rollback local allocation
+		// Rollback local allocation (an allocation held before this call stays: the store still records it)
+		if held {
+			return nil, fmt.Errorf("save allocation: %w", err)
+		}
 		if da.mode == PoolModeLease {
 			da.epochAllocator.Release(ctx, subscriberID)
 		} else {
@@ -232,6 +245,7 @@ func (da *DistributedAllocator) AllocateWithMAC(ctx context.Context, subscriberI
 
 	var prefix *net.IPNet
 	var epoch uint64
+	held := da.holdsLocked(subscriberID)
 
 	// Use appropriate allocator based on mode
 	if da.mode == PoolModeLease {
@@ -260,6 +274,9 @@ func (da *DistributedAllocator) AllocateWithMAC(ctx context.Context, subscriberI
 	}
 
 	if err := da.saveAllocation(ctx, alloc); err != nil {
+		if held {
+			return nil, fmt.Errorf("save allocation: %w", err)
+		}
 		if da.mode == PoolModeLease {
 			da.epochAllocator.Release(ctx, subscriberID)
 		} else {
@@ -300,6 +317,14 @@ func (da *DistributedAllocator) Release(ctx context.Context, subscriberID string
 	da.mu.Lock()
 	defer da.mu.Unlock()
 
+	// Remove the record first: if the store refuses, the local allocation stays and both still agree
+	held := da.holdsLocked(subscriberID)
+	if held {
+		if err := da.deleteAllocation(ctx, subscriberID); err != nil {
+			return err
+		}
+	}
+
 	// Release from appropriate allocator
 	if da.mode == PoolModeLease {
 		if err := da.epochAllocator.Release(ctx, subscriberID); err != nil {
@@ -311,6 +336,9 @@ func (da *DistributedAllocator) Release(ctx context.Context, subscriberID string
 		}
 	}
 
+	if held {
+		return nil
+	}
 	return da.deleteAllocation(ctx, subscriberID)
 }
 
